@@ -133,6 +133,19 @@ def r2(ctx: Context) -> None:
                 hash_names |= {t.id for t in n.targets if isinstance(t, ast.Name)}
     ok = bool(rets) and bool(hash_names) and all(r.value is not None and isinstance(r.value, ast.JoinedStr) and bool(names_in(r.value) & hash_names) for r in rets)
     ctx.add("R2", "sanitiser::hash-of-raw-id-on-every-path", ok, f.loc(), "" if ok else "some return path lacks the >= 8 hex digit hash of the unsanitised id: ids that sanitise to the same text (punctuation variants) would share tables")
+    # ... and "the unsanitised id" means the caller's string: the parameter is not rebound (normalised, stripped, case-folded)
+    # on any path to the hash - two different ids that normalise alike would get the same hash and share every table
+    from ..flow import build_cfg, cfg_node_of, parent_map, reaching_definitions
+
+    g_ = build_cfg(f.node)
+    defs_, IN_ = reaching_definitions(g_)
+    pm_ = parent_map(f.node)
+    rebound = []
+    for n in walk_no_nested(f.node):
+        if isinstance(n, ast.Assign) and "hashlib" in ast.unparse(n.value) and f"{p_id}.encode(" in ast.unparse(n.value):
+            for nd in cfg_node_of(g_, f.node, n, pm_):
+                rebound += [d_ for d_ in IN_[nd.id] if d_.name == p_id and d_.value is not None]
+    ctx.add("R2", "sanitiser::hashes-the-callers-string", not rebound, f.loc(), "" if not rebound else f"`{p_id}` is rebound to `{ast.unparse(rebound[0].value)[:60]}` before it is hashed: ids that differ only in what this step erases get one prefix - they share queue, invocations, history and workflow data, and purging one wipes the other")
     # everything else in the returned text is the sanitised text
     ok2 = all(isinstance(r.value, ast.JoinedStr) and all(isinstance(v, ast.Constant) and re.fullmatch(r"[A-Za-z0-9_]*", str(v.value)) or isinstance(v, ast.FormattedValue) and isinstance(v.value, ast.Name) for v in r.value.values) for r in rets if r.value is not None)
     ctx.add("R2", "sanitiser::returns-only-safe-text", bool(ok2), f.loc(), "" if ok2 else "the returned prefix contains something else than sanitised text, separators and the hash")
@@ -199,12 +212,21 @@ def r3(ctx: Context, sites) -> None:
     if sel:
         s = sel[0]
         ps = sqlmini.param_exprs(s) or []
-        ok = "{" not in s.template and "LIKE ?" in s.template and len(ps) == 1 and isinstance(ps[0], ast.JoinedStr) and ast.unparse(ps[0]) == "f'{" + d.params[1] + "}%'"
-    ctx.add("R3", "prefix-delete::pattern-bound-as-parameter", ok, d.loc(), "" if ok else "the LIKE pattern is not exactly f'{prefix}%' bound as a parameter")
+        t_ = " ".join(s.template.split())
+        like = "LIKE ?" in t_ and len(ps) == 1 and isinstance(ps[0], ast.JoinedStr) and ast.unparse(ps[0]) == "f'{" + d.params[1] + "}%'"
+        # other spellings of "starts with the prefix": instr(name, ?) = 1 / substr(name, 1, length(?)) = ?  bound to the prefix itself
+        starts = bool(re.search(r"\binstr\(\s*name\s*,\s*\?\s*\)\s*=\s*1\b", t_, re.I) or re.search(r"\bsubstr\(\s*name\s*,\s*1\s*,\s*length\(\s*\?\s*\)\s*\)\s*=\s*\?", t_, re.I)) and bool(ps) and all(isinstance(p_, ast.Name) and p_.id == d.params[1] for p_ in ps)
+        ok = "{" not in s.template and (like or starts)
+        why3 = ""
+        if not ok:
+            why3 = "the selection is not a starts-with test on the prefix bound as a parameter (`name LIKE ?` with f'{prefix}%', `instr(name, ?) = 1`, `substr(name, 1, length(?)) = ?`)"
+            if re.search(r"\binstr\(\s*name\s*,\s*\?\s*\)\s*(>|>=|!=|<>)", t_, re.I):
+                why3 = "`instr(name, ?) > 0` is a CONTAINS test: every table whose name has this app's prefix anywhere inside it - another app whose id embeds it - is emptied by this app's purge"
+    ctx.add("R3", "prefix-delete::selects-names-starting-with-the-prefix", ok, d.loc(), "" if ok else why3)
     # forgeability of the prefix under prefix matching
     f = m.functions["sanitize_table_prefix"]
     rets = [r for r in walk_no_nested(f.node) if isinstance(r, ast.Return) and isinstance(r.value, ast.JoinedStr)]
-    exact = all("LIKE" not in s.template.upper() for s in sel)  # deletion by exact names would be safe
+    exact = all("LIKE" not in s.template.upper() and "INSTR(" not in s.template.upper() and "SUBSTR(" not in s.template.upper() and "GLOB" not in s.template.upper() for s in sel)  # deletion by exact names would be safe
     forgeable = False
     for r in rets:
         vals = [v for v in r.value.values if isinstance(v, ast.FormattedValue)]
